@@ -73,3 +73,56 @@ def max_h(newsroom, cols0, rows0, inp, base):
     length field: rows = 8 * size div cols"""
     derived = rows0 if rows0 is not None else (8 * (inp[base + 1] * 256 + inp[base + 2])) // cols0
     return inp[base + 1] if newsroom else derived
+
+
+# ------------------------------------------------------------------ MAX / ART pixel modes (C16: "the colour its pixel mode assigns")
+# Tables of the pixel modes: pinned from the tool's own documentation of the modes (no external definition exists).
+BR2T = [[0, 0, 0], [255, 85, 0], [0, 170, 255], [255, 255, 255]]
+BR3T = [[0, 0, 0], [255, 0, 0], [0, 0, 255], [255, 255, 255]]
+SEMIGT = [[0, 0, 0], [0, 255, 0], [255, 255, 0], [0, 0, 255], [255, 0, 0], [255, 255, 255], [0, 211, 170], [204, 0, 255], [255, 128, 0]]
+
+
+def rgb_at(out, o, T, idx):
+    return out[o] == T[idx][0] and out[o + 1] == T[idx][1] and out[o + 2] == T[idx][2]
+
+
+def bw8(out, o, v):
+    """mode 0: eight pixels per byte, most significant bit first, 0 = black, 1 = white"""
+    return (rgb_at(out, o, BR2T, bit(v, 7) * 3) and rgb_at(out, o + 3, BR2T, bit(v, 6) * 3) and rgb_at(out, o + 6, BR2T, bit(v, 5) * 3)
+            and rgb_at(out, o + 9, BR2T, bit(v, 4) * 3) and rgb_at(out, o + 12, BR2T, bit(v, 3) * 3) and rgb_at(out, o + 15, BR2T, bit(v, 2) * 3)
+            and rgb_at(out, o + 18, BR2T, bit(v, 1) * 3) and rgb_at(out, o + 21, BR2T, bit(v, 0) * 3))
+
+
+def pair_hi_first(v, k):
+    """bit pair k (0 = most significant pair) read as a two-bit number, high bit first"""
+    return bit(v, 7 - 2 * k) * 2 + bit(v, 6 - 2 * k)
+
+
+def pair_lo_first(v, k):
+    return bit(v, 7 - 2 * k) + bit(v, 6 - 2 * k) * 2
+
+
+def dbl(out, o, T, idx):
+    """a bit pair is one double-width pixel: two identical samples"""
+    return rgb_at(out, o, T, idx) and rgb_at(out, o + 3, T, idx)
+
+
+def pairs_hi(out, o, v, T, base):
+    return (dbl(out, o, T, base + pair_hi_first(v, 0)) and dbl(out, o + 6, T, base + pair_hi_first(v, 1))
+            and dbl(out, o + 12, T, base + pair_hi_first(v, 2)) and dbl(out, o + 18, T, base + pair_hi_first(v, 3)))
+
+
+def pairs_lo(out, o, v, T, base):
+    return (dbl(out, o, T, base + pair_lo_first(v, 0)) and dbl(out, o + 6, T, base + pair_lo_first(v, 1))
+            and dbl(out, o + 12, T, base + pair_lo_first(v, 2)) and dbl(out, o + 18, T, base + pair_lo_first(v, 3)))
+
+
+def max_px(out, o, v, arte):
+    """24 output samples for one image byte under pixel mode arte (0 BW, 3 BR2, 4 RB2, 5 BR3, 6 RB3, 7 S10, 8 S11)"""
+    return (bw8(out, o, v) if arte == 0 else
+            pairs_hi(out, o, v, BR2T, 0) if arte == 3 else
+            pairs_lo(out, o, v, BR2T, 0) if arte == 4 else
+            pairs_hi(out, o, v, BR3T, 0) if arte == 5 else
+            pairs_lo(out, o, v, BR3T, 0) if arte == 6 else
+            pairs_lo(out, o, v, SEMIGT, 1) if arte == 7 else
+            pairs_lo(out, o, v, SEMIGT, 5))
